@@ -586,7 +586,7 @@ class World:
                 "stale", "future", "forged", "othersecret", "nosecret", "tsfmt", "realm", "uri", "method", "algo-md5",
                 "algo-sess", "algo-sha", "algo-junk", "noqop", "qop-int", "qop-case", "resp-upper", "resp-short",
                 "resp-flip", "resp-nothex", "missing", "dup", "bws", "unq", "unknown", "userhash", "userhash-wrong",
-                "userstar", "userstar-bad", "scheme", "garbage", "xprefix", "ha1-other", "emptyqop", "case-user"]))
+                "userstar", "userstar-bad", "scheme", "garbage", "xprefix", "ha1-other", "ha1-realm", "emptyqop", "case-user"]))
         nonce = None
         name = u
         ha1 = None
@@ -645,6 +645,8 @@ class World:
             elif k == "ha1-other":
                 o = rng.choice(list(self.users))
                 ha1 = md5hex(o + b":" + realm + b":" + self.users[o])
+            elif k == "ha1-realm":                   # the user's secret for another realm of the file
+                ha1 = md5hex(u + b":" + rng.choice([r for r in REALMS + [b"other"] if r != realm]) + b":" + pw)
         if nonce is None:
             nonce = ref_nonce(ts, rnd, secret)
         if ha1 is None:
@@ -756,12 +758,43 @@ class World:
             hdr = self.digest_header(rule, method, target, stats)
         return q_op(method, target, path, hdr, h2)
 
+    def cross_request(self, stats):
+        """credentials that are valid under one rule, presented under another one (other realm,
+        other require list): the user's secret for rule A's realm used with rule B's realm name"""
+        rng = self.rng
+        if len(self.rules) < 2 or not self.users:
+            return None
+        a, b = rng.sample(self.rules, 2)
+        u = rng.choice(list(self.users))
+        pw = self.users[u]
+        path = b.pfx + b"/x"
+        for r in self.rules:
+            if path.startswith(r.pfx):
+                b = r
+                break
+        method = rng.choice(METHODS[:3])
+        if b.scheme == "b":
+            stats["cross:basic"] += 1
+            return q_op(method, path, path, b"Basic " + base64.b64encode(u + b":" + pw))
+        nonce = ref_nonce(self.now_epoch - rng.choice([0, 1, 100]), rng.getrandbits(32), b.secret)
+        ha1 = md5hex(u + b":" + rng.choice([a.realm, a.realm, b.realm]) + b":" + pw)
+        resp = ref_response(ha1, False, nonce, b"00000001", b"abc", b"auth", method.encode(), path)
+        stats["cross:digest"] += 1
+        return q_op(method, path, path,
+                    b'Digest username="' + u + b'", realm="' + b.realm + b'", nonce="' + nonce + b'", uri="' + path +
+                    b'", qop=auth, nc=00000001, cnonce="abc", response="' + resp + b'"')
+
     def scenario(self, nops, stats):
         rng = self.rng
         ops = []
         last = None
         for _ in range(nops):
             r = rng.random()
+            if r > 0.90:
+                c = self.cross_request(stats)
+                if c:
+                    ops.append(c)
+                    continue
             if r < 0.12:
                 ma = 600 if self.cache == "-" else int(self.cache)
                 dt = rng.choice([1, 2, 7, 8, 9, 16, 60, 61, 540, 541, 600, 601, 700, max(ma, 1), ma + 1, ma + 7, ma + 8, ma + 9])
